@@ -247,6 +247,8 @@ func (fc *frozenCache) Get(key interface{}) (interface{}, bool) {
 
 var runningClient atomic.Pointer[tclient]
 
+var blockedSeen atomic.Int64 // clients found waiting for a parked peer, in this process
+
 type dispatchDisk struct{ prefix string }
 
 func (d *dispatchDisk) NodeURLPrefix() string { return d.prefix }
@@ -728,8 +730,14 @@ func runThreads(sc *Scenario, ch *Chooser, solo int, logh *hasher) (*threadRun, 
 	// blocked and another parked client is chosen, so the peer can make the progress it waits
 	// for. When every live client is blocked and none is parked, nothing the scheduler does can
 	// help: the clients wait for each other for good.
-	const blockMs = 1000
-	const deadMs = 60000
+	// once this process has seen a client wait for a parked peer, the code under test is known to
+	// block across clients and the wait is cut short (a wrong guess only costs determinism of
+	// that run: whatever really-concurrent execution follows must satisfy the property too)
+	blockMs := 1000
+	if blockedSeen.Load() > 0 {
+		blockMs = 100
+	}
+	const deadMs = 20000
 	parkedSet := map[int]bool{}
 	for i := 0; i < n; i++ {
 		parkedSet[i] = true
@@ -769,6 +777,9 @@ func runThreads(sc *Scenario, ch *Chooser, solo int, logh *hasher) (*threadRun, 
 			blocked[running] = true
 			running = -1
 			tr.blockedEvents++
+			if blockedSeen.Add(1) == 1 {
+				blockMs = 100
+			}
 			continue
 		}
 		if len(parkedSet) > 0 {
@@ -1075,16 +1086,21 @@ func RunThreadShard(t *testing.T, env *ShardEnv) *ShardReport {
 				rep.Truncated["violation-not-reproducible-in-fresh-process"]++
 				continue
 			}
+			shrinkTries := 40
+			if strings.Contains(w.viol.Sig, "operation-does-not-terminate") {
+				shrinkTries = 8 // every candidate costs the full deadlock wait
+			}
 			small := Shrink(t, full, w.viol.Sig, func(t *testing.T, s *Scenario) *World {
 				s.Tape = nil
 				return subprocessRunner(t, s)
-			}, 40)
+			}, shrinkTries)
 			if fw := subprocessRunner(t, small); fw.viol != nil && fw.viol.Sig == w.viol.Sig && len(small.Ops) < len(full.Ops) {
 				small.Signature, small.Detail, small.ShrunkFrom = w.viol.Sig, w.viol.Detail, len(full.Ops)
 				small.Save(path)
 			}
 			rep.Violations = append(rep.Violations, ViolationReport{Property: env.Prop, Signature: w.viol.Sig, Detail: w.viol.Detail, Replay: path, Seed: sc.Seed, OpsBefore: len(full.Ops), OpsAfter: len(small.Ops)})
-			if len(rep.Violations) >= 3 {
+			if len(rep.Violations) >= 3 || strings.Contains(w.viol.Sig, "operation-does-not-terminate") {
+				// (stuck clients stay behind in this process with whatever they hold: no further runs here)
 				break
 			}
 		}
